@@ -268,7 +268,8 @@ var c02amps = []c02amp{
 	}},
 	{"cff-cid-256-font-dicts-shared-private", dCFF, func(size int, th bool) []byte {
 		// every Font DICT points at the same Private DICT and the same Subrs INDEX
-		subrs := make([][]byte, pick3(size, 100, 1000, 10000))
+		// (linear: at most 256 x (24 bytes per subr + data); sizes stay below the frozen bound)
+		subrs := make([][]byte, pick3(size, 100, 1000, 4000))
 		for i := range subrs {
 			subrs[i] = []byte{11}
 		}
